@@ -167,12 +167,75 @@ func mkTable(fd *ast.FuncDecl) tableFacts {
 	return t
 }
 
+// numForm parses a threshold format ("99.995e%d", ".99995e%d", "0x1.8ffae147ae148p%d") into
+// (mantissa, exponent offset, isHex): value = mantissa * base^(offset + <the %d argument>).
+func numForm(format string) (mant string, off int, hex bool) {
+	body := strings.TrimSuffix(strings.TrimSuffix(format, "e%d"), "p%d")
+	if body == format {
+		fmt.Fprintf(os.Stderr, "unrecognised threshold format %q\n", format)
+		os.Exit(1)
+	}
+	digitsPerUnit := 1
+	if strings.HasPrefix(body, "0x") {
+		hex = true
+		body = body[2:]
+		digitsPerUnit = 4
+	}
+	ip, fp := body, ""
+	if i := strings.IndexByte(body, '.'); i >= 0 {
+		ip, fp = body[:i], body[i+1:]
+	}
+	mant = strings.TrimLeft(ip+fp, "0")
+	if mant == "" {
+		mant = "0"
+	}
+	if hex {
+		mant = "0x" + mant
+	}
+	return mant, -len(fp) * digitsPerUnit, hex
+}
+
+func numForms(formats []string, offsets []int) string {
+	var out []string
+	for i, f := range formats {
+		m, off, _ := numForm(f)
+		out = append(out, fmt.Sprintf("(%s, (%d : Int))", m, off+offsets[i]))
+	}
+	return "[" + strings.Join(out, ", ") + "]"
+}
+
 func intList(l []int) string {
 	s := make([]string, len(l))
 	for i, v := range l {
 		s[i] = fmt.Sprintf("(%d : Int)", v)
 	}
 	return "[" + strings.Join(s, ", ") + "]"
+}
+
+func opCode(op string) int {
+	switch op {
+	case ">=":
+		return 0
+	case ">":
+		return 1
+	case "<=":
+		return 2
+	case "<":
+		return 3
+	}
+	return 9
+}
+
+func fieldIdx(f string) int {
+	switch f {
+	case "t100":
+		return 0
+	case "t10":
+		return 1
+	case "t1":
+		return 2
+	}
+	return 9
 }
 
 func scaleFacts(repo string) {
@@ -208,7 +271,7 @@ func scaleFacts(repo string) {
 	})
 	// CommonScale: the threshold cascade
 	cs := funcDecl(f, "CommonScale")
-	var cascade []string
+	var cascade, cascadeN []string
 	var defaultScaler string
 	var fallbackCmp string
 	ast.Inspect(cs.Body, func(n ast.Node) bool {
@@ -222,6 +285,7 @@ func scaleFacts(repo string) {
 								if cl, ok := rs.Results[0].(*ast.CompositeLit); ok {
 									p, _ := intLit(cl.Elts[0])
 									cascade = append(cascade, fmt.Sprintf("(%s, %s, %d)", leanStr(be.Op.String()), leanStr(sel.Sel.Name), p))
+									cascadeN = append(cascadeN, fmt.Sprintf("(%d, %d, %d)", opCode(be.Op.String()), fieldIdx(sel.Sel.Name), p))
 								}
 							}
 						}
@@ -251,17 +315,26 @@ func scaleFacts(repo string) {
 	fmt.Printf("def siExpStart : Int := %d\ndef siExpStep : Int := %d\n", si.expStart, si.expStep)
 	fmt.Printf("def siFormats : List String := %s\n", leanStrList(si.formats))
 	fmt.Printf("def siOffsets : List Int := %s\n", intList(si.offsets))
+	fmt.Printf("/-- thresholds in numeric form: (mantissa, offset): value = mantissa * 10^(exp + offset) -/\n")
+	fmt.Printf("def siThresh : List (Nat × Int) := %s\n", numForms(si.formats, si.offsets))
 	fmt.Printf("def siBase : String := %s\n", leanStr(si.base))
 	fmt.Printf("def iecPrefixes : List String := %s\n", leanStrList(iec.prefixes))
 	fmt.Printf("def iecExpStart : Int := %d\ndef iecExpStep : Int := %d\n", iec.expStart, iec.expStep)
 	fmt.Printf("def iecFormats : List String := %s\n", leanStrList(iec.formats))
 	fmt.Printf("def iecOffsets : List Int := %s\n", intList(iec.offsets))
+	fmt.Printf("/-- value = mantissa * 2^(exp + offset) -/\n")
+	fmt.Printf("def iecThresh : List (Nat × Int) := %s\n", numForms(iec.formats, iec.offsets))
 	fmt.Printf("def iecBase : String := %s\n", leanStr(iec.base))
 	fmt.Printf("def sigfigsFormat : String := %s\n", leanStr(sfFormat))
+	fmt.Printf("def sigfigsThresh : Nat × Int := %s\n", strings.Trim(numForms([]string{sfFormat}, []int{0}), "[]"))
 	fmt.Printf("def sigfigsExpStart : Int := %d\ndef sigfigsExpEnd : Int := %d\ndef sigfigsCond : String := %s\ndef sigfigsBase : Nat := %d\n", sfStart, sfEnd, leanStr(sfCond), sfBase)
 	fmt.Printf("/-- (comparison operator, threshold field, precision) of the cascade in CommonScale -/\n")
 	fmt.Printf("def cascade : List (String × String × Nat) := [%s]\n", strings.Join(cascade, ", "))
+	fmt.Printf("/-- numeric form: (operator code 0:>= 1:> 2:<= 3:<, threshold index 0:t100 1:t10 2:t1, precision) -/\n")
+	fmt.Printf("def cascadeN : List (Nat × Nat × Nat) := [%s]\n", strings.Join(cascadeN, ", "))
 	fmt.Printf("def fallbackCmp : String := %s\n", leanStr(fallbackCmp))
+	fmt.Printf("def fallbackCmpN : Nat := %d\n", opCode(fallbackCmp))
+	fmt.Printf("def siBaseIsTwo : Bool := %v\ndef iecBaseIsTwo : Bool := %v\n", si.base == "2", iec.base == "2")
 	fmt.Printf("def defaultScaler : String := %s\n", leanStr(defaultScaler))
 	fmt.Printf("def fingerprint : String := %s\n", leanStr(fingerprint(cs, format, funcDecl(f, "mkSIFactors"), funcDecl(f, "mkIECFactors"), sf)))
 	fmt.Println("end Generated.ScaleFacts")
